@@ -183,6 +183,28 @@ impl Check for C15 {
                 extra["snippet"] = json!(snippet);
             }
         }
+        if kind > 0 && d.chance(24) {
+            // a later pattern of the same mode shares the token type of the pattern that carries
+            // the plant and has a lookahead of its own (per-token-type tables must not let the
+            // later entry stand in for the earlier one)
+            if let Some(slot) = extra.get("slot").and_then(|v| v.as_array()).cloned() {
+                let (mi, pi) = (slot[0].as_u64().unwrap_or(0) as usize, slot[1].as_u64().unwrap_or(0) as usize);
+                if mi < modes.len() && pi < modes[mi].pats.len() {
+                    let tt = modes[mi].pats[pi].tt;
+                    let twin = PatSpec {
+                        rx: Rx::Lit(gen::gen_char(d), rx::LitForm::Verbatim),
+                        tt,
+                        la: Some(LaSpec {
+                            positive: d.bool(),
+                            rx: Rx::Lit('q', rx::LitForm::Verbatim),
+                        }),
+                    };
+                    let at = pi + 1 + d.below(modes[mi].pats.len() - pi);
+                    modes[mi].pats.insert(at, twin);
+                    extra["shared_token_type"] = json!(true);
+                }
+            }
+        }
         Case {
             modes,
             extra,
